@@ -14,7 +14,7 @@ From SL Require Import Sx PyInt LoopSem LoopWire ScreenSem.
 Import ListNotations.
 
 Definition as_answer (s : sx) : option answer :=
-  match s with I 0%Z => Some AnsNoAttr | I 1%Z => Some AnsTrue | I 2%Z => Some AnsOther | _ => None end.
+  match s with I 0%Z => Some AnsNoAttr | I 1%Z => Some AnsTrue | I 2%Z => Some AnsOther | I 3%Z => Some AnsOther | _ => None end.   (* 2 = False, 3 = None *)
 
 Fixpoint as_scmd (fuel : nat) (s : sx) : option scmd :=
   match fuel with
